@@ -185,6 +185,13 @@ func (a StringDict) M__len__() (Object, error) {
 }
 
 func (a StringDict) M__repr__() (Object, error) {
+	if len(a) == 0 {
+		return String("{}"), nil
+	}
+	if !reprEnter(a) {
+		return String("{...}"), nil
+	}
+	defer reprLeave(a)
 	var out bytes.Buffer
 	out.WriteRune('{')
 	spacer := false
